@@ -45,9 +45,10 @@ const (
 	c13BehClosedFirst             // the connection is already closed when Connected is delivered
 	c13BehDiscFirst               // ... and its Disconnected was even delivered before its Connected (out-of-order notifications)
 	c13BehStallNegotiation        // the remote accepts the stream and does not even answer the protocol negotiation
+	c13BehStallOpen               // the remote never acknowledges the new stream: opening it blocks until the context ends or the connection closes
 )
 
-var c13BehNames = []string{"answers", "stalls", "refuses-stream", "closed-before-Connected", "Disconnected-before-Connected", "stalls-in-negotiation"}
+var c13BehNames = []string{"answers", "stalls", "refuses-stream", "closed-before-Connected", "Disconnected-before-Connected", "stalls-in-negotiation", "stalls-in-stream-open"}
 
 type c13Ev struct{ Kind, Slot, Beh int }
 
@@ -168,9 +169,9 @@ func TestVerifC13Life(t *testing.T) {
 	w := c13GetWorld(t)
 	r := vrep.New("C13", "lifetime")
 	defer r.Flush()
-	cf := c13LCfg{depth: 6, maxMsgs: 2, behs: []int{c13BehAnswer, c13BehStall, c13BehRefuse, c13BehStallNegotiation}}
+	cf := c13LCfg{depth: 6, maxMsgs: 2, behs: []int{c13BehAnswer, c13BehStall, c13BehRefuse, c13BehStallNegotiation, c13BehStallOpen}}
 	if vrep.Thorough() {
-		cf = c13LCfg{depth: 8, maxMsgs: 2, behs: []int{c13BehAnswer, c13BehStall, c13BehRefuse, c13BehClosedFirst, c13BehDiscFirst, c13BehStallNegotiation}, tick: true}
+		cf = c13LCfg{depth: 8, maxMsgs: 2, behs: []int{c13BehAnswer, c13BehStall, c13BehRefuse, c13BehClosedFirst, c13BehDiscFirst, c13BehStallNegotiation, c13BehStallOpen}, tick: true}
 	}
 	hs := c13Histories(cf)
 	const rt = 0 // ed25519 remote (keys are the message product's business; this keeps a history cheap)
@@ -272,6 +273,12 @@ func TestVerifC13Life(t *testing.T) {
 						f.net.notifyConnected(c)
 						waits[e.Slot] = f.ids.IdentifyWait(c)
 					case c13BehRefuse:
+						f.net.add(c)
+						open++
+						f.net.notifyConnected(c)
+						waits[e.Slot] = f.ids.IdentifyWait(c)
+					case c13BehStallOpen:
+						c.blockOpen = true
 						f.net.add(c)
 						open++
 						f.net.notifyConnected(c)
